@@ -66,7 +66,7 @@ func (e *Engine) verifyTop(fn *ssa.Function, c *Contract, res *FuncResult) {
 	e.cur = fr
 	// signature agreement
 	want := len(c.Params)
-	if c.RecvType != "" {
+	if c.RecvType != "" && c.Closure == 0 {
 		want++
 	}
 	if want != len(fn.Params) {
@@ -82,6 +82,16 @@ func (e *Engine) verifyTop(fn *ssa.Function, c *Contract, res *FuncResult) {
 		e.assumeOld(st, v, p.Type())
 		fr.vals[p] = v
 		args = append(args, v)
+	}
+	// captured variables of a function literal under contract: unknown cells that existed at entry
+	for _, fv := range fn.FreeVars {
+		cell := e.fresh(sRef, "fv_"+fv.Name())
+		e.assume(st, tNot(tEq(cell, tNil)))
+		e.assume(st, T{fmt.Sprintf("(= (newid %s) 0)", cell.S), sBool})
+		fr.vals[fv] = cell
+	}
+	if c.Closure > 0 && c.RecvType != "" {
+		args = append([]Val{e.capturedValue(fr, st, c.RecvName)}, args...)
 	}
 	fr.params = args
 	// check generated clause signatures against the real one (first clause function suffices per kind)
@@ -174,6 +184,23 @@ func (e *Engine) verifyTop(fn *ssa.Function, c *Contract, res *FuncResult) {
 	e.frameCheck(fr, out, &fp)
 }
 
+// capturedValue loads the current value of the captured variable called name.
+func (e *Engine) capturedValue(fr *Frame, st *State, name string) Val {
+	for _, fv := range fr.fn.FreeVars {
+		if fv.Name() == name {
+			t := fv.Type().(*types.Pointer).Elem()
+			v := e.load(st, fr.vals[fv], t)
+			if tv, ok := v.(T); ok {
+				e.assume(st, e.typeInv(tv, t, 0))
+				e.assumeOld(st, tv, t)
+			}
+			return v
+		}
+	}
+	e.unsupported("function literal %s does not capture %s", fr.fn.Name(), name)
+	return nil
+}
+
 // assumeOld: references reachable directly from parameters existed at entry.
 func (e *Engine) assumeOld(st *State, v T, t types.Type) {
 	switch v.Sort {
@@ -198,6 +225,13 @@ func (e *Engine) checkHeader(fn *ssa.Function, c *Contract) {
 			continue
 		}
 		var real []types.Type
+		if c.Closure > 0 && c.RecvType != "" {
+			for _, fv := range fn.FreeVars {
+				if fv.Name() == c.RecvName {
+					real = append(real, fv.Type().(*types.Pointer).Elem())
+				}
+			}
+		}
 		for _, p := range fn.Params {
 			real = append(real, p.Type())
 		}
